@@ -96,8 +96,9 @@ LibDiscard(t) == CASE t = "dnscrypt-udp" -> {Drop} [] t = "dnscrypt-tcp" -> {Clo
 UndecRule(t, w) ==
     CASE t = "udp"            -> {Drop}
       [] t \in {"tcp", "dot"} -> {Close}
-      [] t = "doh-json"       -> {HTTP400}                    \* invalid parameters
-      [] IsDoH(t)             -> {HTTP400, HTTP500}           \* RFC 8484 is silent; 400 for a bad encoding, "no response" 500 otherwise
+      [] IsDoH(t)             -> {HTTP400, HTTP500}           \* 400 for a request that cannot be converted (bad base64, invalid JSON
+                                                              \* parameters), the "no response" 500 for bytes that do not decode (also
+                                                              \* a JSON name that packs but exceeds 255 octets); the docs fix no more
       [] t = "doq"            -> {QUICProto, Close}
       [] IsDC(t)              -> LibDiscard(t)
       [] OTHER                -> {None}
